@@ -15,7 +15,8 @@ if SCRATCH:
     subprocess.run(['rsync', '-a', '--exclude', 'build/target', '--exclude', 'build/pytarget', '--exclude', 'build/work', '--exclude', 'build/results',
                     '--exclude', '.git', ROOT + '/', sv + '/'], check=True)
     ct = os.path.join(sv, 'harness', 'Cargo.toml')
-    open(ct, 'w').write(open(ct).read().replace('/repo/oxmpl', sr + '/oxmpl'))
+    txt = open(ct).read().replace('/repo/oxmpl', sr + '/oxmpl')
+    open(ct, 'w').write(txt)
     try:
         rc = subprocess.run([sys.executable, os.path.join(sv, 'bin', 'seeded_regression.py')] + sys.argv[1:],
                             env={**os.environ, 'VERIF_REPO': sr}).returncode
@@ -52,6 +53,8 @@ for i in ids:
                                env={**os.environ, 'VERIF_ENGINES': engines_for(patch)}, stdout=subprocess.PIPE, stderr=subprocess.STDOUT, text=True)
             labs = sorted(set(re.findall(r'label=(\S+)', p.stdout)))
             res.append((m.group(1), p.returncode, labs[:4]))
+            if p.returncode == 2:
+                print(p.stdout[-1500:], flush=True)
         out[i] = res
     finally:
         subprocess.run(['git', '-C', REPO, 'checkout', '--', '.'], check=True)
